@@ -286,7 +286,7 @@ func roundTrip(work string, c *ld.Case, formats ...string) outcome {
 		// without path resolution env_file / label_file stay relative to the process working
 		// directory: load and reload from the case's working directory, as a client would
 		if err := os.Chdir(filepath.Join(dir, c.WorkingDir)); err == nil {
-			defer os.Chdir(work) //nolint:errcheck
+			defer os.Chdir(filepath.Dir(work)) //nolint:errcheck // the shard directory outlives the scratch directory
 		}
 	}
 	res := ld.Load(dir, c)
